@@ -1,6 +1,7 @@
 package props
 
 import (
+	"fmt"
 	"go/token"
 	"regexp"
 	"strings"
@@ -22,6 +23,7 @@ func runC09Gaps2(c *eng.Ctx) {
 	c09g2Cursor(c)
 	c09g2LeaderVerdict(c)
 	c09g2ApplyState(c)
+	c09g2SnapshotComplete(c)
 }
 
 func c09g2Unconv(v ssa.Value) ssa.Value {
@@ -574,6 +576,228 @@ func c09g2RecordOperands(c *eng.Ctx) {
 			c.Prov(f, "listing parameters verified", cl, a[0], `^field:op\.Key$`)
 			c.Prov(f, "listing verified", cl, a[1], `^call:raft\.listPageInner#0$`)
 			c.Prov(f, "hash verified against", cl, a[2], `^field:op\.Value$`)
+		}
+	}
+}
+
+// c09g2SnapshotComplete (C09.10): a replica initialised from a snapshot must
+// hold what a replica that applied the log holds. The snapshot stream is
+// produced by FSM.writeTo: every key/value its cursor yields is written to the
+// sink (no entry is skipped, whatever its key: in-flight chunk reassembly state
+// lives in the same bucket), the bucket it copies is the bucket the apply path
+// writes and the receiver fills, and what the apply path keeps in the other
+// bucket (cursor, configuration) is what the snapshot metadata re-creates.
+func c09g2SnapshotComplete(c *eng.Ctx) {
+	wt := c.Fn("raft.(*FSM).writeTo")
+	if wt == nil {
+		return
+	}
+	var view *ssa.Function
+	for _, v := range eng.Calls(wt, `bbolt\.DB\)\.View$`) {
+		a := v.Common().Args
+		if mc, ok := a[len(a)-1].(*ssa.MakeClosure); ok {
+			view = mc.Fn.(*ssa.Function)
+		}
+	}
+	c.Clause("R3", "C09.10")
+	if view == nil {
+		c.Undecided(wt, "snapshot scan", wt.Pos(), "writeTo no longer reads the database through a db.View closure literal")
+		return
+	}
+	isKey := func(v ssa.Value) bool {
+		ok, _, _ := eng.OriginsMatch(v, `^call:.*bbolt\.Cursor\)\.(First|Next|Seek)#0$`)
+		return ok
+	}
+	writes := instrsOf(eng.Calls(view, `\.WriteMsg$`))
+	steps := eng.Calls(view, `bbolt\.Cursor\)\.Next$`)
+	if !c.Floor(view, "WriteMsg to a sink", len(writes), 2) || !c.Floor(view, "cursor steps", len(steps), 2) {
+		return
+	}
+	// every entry the cursor yields is written before the cursor moves on
+	nLoops := 0
+	for _, b := range view.Blocks {
+		ifi := eng.IfOf(b)
+		if ifi == nil {
+			continue
+		}
+		bo, ok := ifi.Cond.(*ssa.BinOp)
+		if !ok || !(bo.Op == token.NEQ || bo.Op == token.EQL) || !(isKey(bo.X) && eng.IsNilConst(bo.Y) || isKey(bo.Y) && eng.IsNilConst(bo.X)) {
+			continue
+		}
+		nLoops++
+		succ := 0
+		if bo.Op == token.EQL {
+			succ = 1
+		}
+		body := []eng.Edge{{From: b, Succ: succ}}
+		site := fmt.Sprintf("every entry of scan %d is written to the sink", nLoops)
+		target := func(in ssa.Instruction) bool {
+			if in == ssa.Instruction(ifi) {
+				return true
+			}
+			for _, st := range steps {
+				if in == ssa.Instruction(st) {
+					return true
+				}
+			}
+			return false
+		}
+		if h := eng.Reach(eng.Query{Fn: view, StartEdges: body, Barriers: writes, Target: target}); h != nil {
+			c.Violation(view, site, ifi.Pos(), "the scan can move on to the next entry without having written the current one to the sink: a snapshot that leaves out part of the bucket (for instance in-flight chunks) initialises a replica that never reaches the state of those that applied the log", h.Witness)
+		} else {
+			c.OK(view, site, ifi.Pos(), "no path from a yielded entry to the next cursor step avoids WriteMsg")
+		}
+	}
+	c.Floor(view, "scans of the bucket (key != nil loops)", nLoops, 2)
+	// no other branch looks at the key
+	c.Clause("R8", "C09.10")
+	for _, b := range view.Blocks {
+		ifi := eng.IfOf(b)
+		if ifi == nil {
+			continue
+		}
+		dep := false
+		var walk func(v ssa.Value, d int)
+		walk = func(v ssa.Value, d int) {
+			if v == nil || d > 6 || dep {
+				return
+			}
+			if isKey(v) {
+				dep = true
+				return
+			}
+			if in, ok := v.(ssa.Instruction); ok {
+				var ops []*ssa.Value
+				for _, op := range in.Operands(ops) {
+					if op != nil && *op != nil {
+						walk(*op, d+1)
+					}
+				}
+			}
+		}
+		walk(ifi.Cond, 0)
+		if !dep {
+			continue
+		}
+		if bo, ok := ifi.Cond.(*ssa.BinOp); ok && (bo.Op == token.NEQ || bo.Op == token.EQL) && (eng.IsNilConst(bo.X) || eng.IsNilConst(bo.Y)) {
+			c.OK(view, "branch on the scanned key", ifi.Pos(), "end-of-bucket test")
+			continue
+		}
+		c.Violation(view, "branch on the scanned key", ifi.Pos(), "the snapshot scan branches on the key it is looking at ("+eng.ExprDeep(ifi.Cond)+"): a snapshot is a complete copy, no key is special", nil)
+	}
+	// what is written is the entry itself
+	c.Clause("R5", "C09.10")
+	for _, w := range eng.Calls(view, `\.WriteMsg$`) {
+		a := w.Common().Args
+		msg := a[len(a)-1]
+		if mi, ok := msg.(*ssa.MakeInterface); ok {
+			msg = mi.X
+		}
+		ks, vs := eng.StructLitField(msg, "Key"), eng.StructLitField(msg, "Value")
+		if len(ks) == 0 || len(vs) == 0 {
+			c.Undecided(view, "entry written to the sink", w.Pos(), "the message is not a local StorageEntry literal")
+			continue
+		}
+		for _, k := range ks {
+			c.Prov(view, "key written to the sink", w, k, `^call:.*bbolt\.Cursor\)\.(First|Next)#0$`)
+		}
+		for _, v := range vs {
+			c.Prov(view, "value written to the sink", w, v, `^call:.*bbolt\.Cursor\)\.(First|Next)#1$`)
+		}
+	}
+	// table agreement: buckets
+	c.Clause("R8", "C09.10")
+	bucketNames := func(f *ssa.Function, pat string) map[string]bool {
+		out := map[string]bool{}
+		for _, cl := range eng.Calls(f, pat) {
+			a := cl.Common().Args
+			out[eng.ExprDeep(a[len(a)-1])] = true
+		}
+		return out
+	}
+	copied := map[string]bool{}
+	for _, cur := range eng.Calls(view, `bbolt\.Bucket\)\.Cursor$`) {
+		if bc, ok := cur.Common().Args[0].(*ssa.Call); ok && strings.HasSuffix(eng.CalleeName(bc.Common()), "bbolt.Tx).Bucket") {
+			copied[eng.ExprDeep(bc.Call.Args[len(bc.Call.Args)-1])] = true
+		} else {
+			c.Undecided(view, "bucket scanned by the snapshot", cur.Pos(), "cursor over "+eng.ExprDeep(cur.Common().Args[0]))
+		}
+	}
+	c.Floor(view, "buckets scanned by the snapshot", len(copied), 1)
+	var applyClo *ssa.Function
+	if apply := c.Fn("raft.(*FSM).ApplyBatch"); apply != nil {
+		for _, u := range eng.Calls(apply, `bbolt\.DB\)\.Update$`) {
+			a := u.Common().Args
+			if mc, ok := a[len(a)-1].(*ssa.MakeClosure); ok {
+				applyClo = mc.Fn.(*ssa.Function)
+			}
+		}
+	}
+	meta := c.Fn("raft.writeSnapshotMetaToDB")
+	if applyClo == nil || meta == nil {
+		c.Undecided(wt, "bucket table", wt.Pos(), "apply closure or writeSnapshotMetaToDB not found")
+		return
+	}
+	metaBuckets, metaKeys := map[string]bool{}, map[string]bool{}
+	for _, clo := range eng.Closures(meta) {
+		for n := range bucketNames(clo, `bbolt\.Tx\)\.(Bucket|CreateBucketIfNotExists)$`) {
+			metaBuckets[n] = true
+		}
+		for _, p := range eng.Calls(clo, `bbolt\.Bucket\)\.Put$`) {
+			metaKeys[eng.ExprDeep(p.Common().Args[1])] = true
+		}
+	}
+	applied := bucketNames(applyClo, `bbolt\.Tx\)\.(Bucket|CreateBucketIfNotExists)$`)
+	c.Floor(applyClo, "buckets opened by the apply path", len(applied), 2)
+	for n := range applied {
+		site := "bucket{" + n + "} written by the apply path reaches a replica initialised from a snapshot"
+		switch {
+		case copied[n]:
+			c.OK(applyClo, site, applyClo.Pos(), "copied entry by entry by writeTo")
+		case metaBuckets[n]:
+			// only keys the snapshot metadata re-creates may be written there by the apply path
+			bad := ""
+			for _, p := range eng.Calls(applyClo, `bbolt\.Bucket\)\.Put$`) {
+				rc, ok := p.Common().Args[0].(*ssa.Call)
+				if ok && eng.ExprDeep(rc.Call.Args[len(rc.Call.Args)-1]) == n && !metaKeys[eng.ExprDeep(p.Common().Args[1])] {
+					bad = eng.ExprDeep(p.Common().Args[1])
+				}
+			}
+			if bad != "" {
+				c.Violation(applyClo, site, applyClo.Pos(), "the apply path writes key "+bad+" into a bucket the snapshot does not copy, and writeSnapshotMetaToDB does not re-create that key", nil)
+			} else {
+				c.OK(applyClo, site, applyClo.Pos(), "not copied; its keys written by the apply path are re-created from the snapshot metadata (writeSnapshotMetaToDB)")
+			}
+		default:
+			c.Violation(applyClo, site, applyClo.Pos(), "the apply path writes a bucket that is neither copied by writeTo nor re-created from the snapshot metadata", nil)
+		}
+	}
+	// the receiver fills the bucket that was copied
+	if rcv := c.Fn("raft.(*BoltSnapshotSink).writeBoltDBFile"); rcv != nil {
+		filled := map[string]bool{}
+		var walkClo func(f *ssa.Function)
+		walkClo = func(f *ssa.Function) {
+			if len(eng.Calls(f, `bbolt\.Bucket\)\.Put$`)) > 0 {
+				for n := range bucketNames(f, `bbolt\.Tx\)\.(Bucket|CreateBucketIfNotExists)$`) {
+					filled[n] = true
+				}
+			}
+			for _, a := range f.AnonFuncs {
+				walkClo(a)
+			}
+		}
+		walkClo(rcv)
+		site := "bucket filled from a received snapshot = bucket copied by writeTo"
+		same := len(filled) == len(copied) && len(filled) > 0
+		for n := range filled {
+			if !copied[n] {
+				same = false
+			}
+		}
+		if same {
+			c.OK(rcv, site, rcv.Pos(), "same bucket on both sides")
+		} else {
+			c.Violation(rcv, site, rcv.Pos(), "writeTo copies a different set of buckets than the receiver fills", nil)
 		}
 	}
 }
